@@ -4,7 +4,7 @@ from ..oracles import manager as om
 
 ID = "C11"
 LEAN_MODULE = "HexProps.C11"
-SCOPE = [("arith", 40, 60), ("manager.ha", 400, 50)]
+SCOPE = [("arith", 40, 60), ("manager.ha", 400, 50), ("hexital.ha", 100, 40)]
 ORACLE_RULE = ("C11: random stream x optional timeframe/fill x append schedule (many starting from 0 or 1 candles) with the Heikin-Ashi type on the "
                "real CandleManager vs an independent left fold of the four formulas over the independently resampled raw stream; tag and clean_values checked")
 ASSUMPTIONS = ["TZ=UTC for this check", "HA values compared with relative tolerance 1e-9 in the oracle (bit-exact in the correspondence)"]
